@@ -65,7 +65,8 @@ SOLVE = st.fixed_dictionaries({
     "op": st.just("solve"), "t": st.integers(0, 3),
     "method": st.sampled_from([None, None, "lsq", "lsq_linear"]),
     "b_matrix": st.sampled_from([None, "velocity"]), "allow_negatives": st.booleans(),
-    "adim": st.booleans(), "x0": st.sampled_from(["none", "ones", "random"])})
+    "adim": st.booleans(), "x0": st.sampled_from(["none", "ones", "random"]),
+    "omit": st.booleans()})          # allow_negatives=True (the default) left out of the call
 PBUILD = st.fixed_dictionaries({"op": st.just("pbuild"), "t": st.integers(0, 3)})
 PSOLVE = st.fixed_dictionaries({"op": st.just("psolve"), "t": st.integers(0, 3)})
 SYSVEL = st.fixed_dictionaries({"op": st.just("sysvel")})
@@ -91,8 +92,10 @@ def build_kwargs(step, explicit=False):
     return kw
 
 
-def solve_kwargs(step, n_internal):
+def solve_kwargs(step, n_internal, explicit=False):
     kw = {"allow_negatives": step["allow_negatives"]}
+    if step["allow_negatives"] and step.get("omit") and not explicit:
+        kw = {}
     if step["method"]:
         kw["method"] = step["method"]
     if step["b_matrix"]:
@@ -182,7 +185,7 @@ class History:
             call(f2.build_force_matrix, **build_kwargs(dict(b, t=t), explicit=True))
             for k in sorted(set(filt_solve) - set(filt_build)):
                 call(f2.frames[k].filter_edges, "SG")
-            call(f2.solve_stress, when=t, **solve_kwargs(s, len(f2.frames[t].internal_big_edges)))
+            call(f2.solve_stress, when=t, **solve_kwargs(s, len(f2.frames[t].internal_big_edges), explicit=True))
             if want_pressure:
                 call(f2.build_pressure_matrix, when=t)
                 call(f2.solve_pressure, when=t, method="lagrange_pressure")
